@@ -632,8 +632,11 @@ def d3_hook_witness(ctx, shim, plans):
           f"| 10:0:0:0:0:0 20:0:0:0:0:0")
     o = vlib.run_lines(shim, [ln], nproc=1)[0]
     ok = o.startswith("ok") and o.split()[2] == "1,2"
-    ctx.note_search("kern-bracket-witness", 1, 1, rule="the witness of known_C02_kern_bracket on the crate's hb_ot_layout_kern")
-    if not ok:
+    ctx.note_search("kern-bracket-witness", 1, 1, rule="the witness of known_C02_kern_bracket on the crate's hb_ot_layout_kern",
+                    order_kept=ok)
+    already = any("kern-bracket-shape" in open(v[1]).read() for v in ctx.violations) or \
+        any(k.get("signature", {}).get("theorem") == "known_C02_kern_bracket" for k in ctx.known_hits)
+    if not ok and not already:
         ctx.violation("hb_ot_layout_kern leaves the buffer reversed when kerning is not requested (backward text)",
                       {"stage": "search", "stream": "kern-bracket-witness", "theorem": "known_C02_kern_bracket",
                        "request": ln, "expected": "glyph order 1,2", "observed": o})
@@ -782,6 +785,40 @@ def expected_attachments(sem, B):
     return att, pairs
 
 
+def check_attach(sem, text, d, so, stats=None):
+    """the geometric oracle on one shape() reply; returns a description of the first anchor pair that does not
+    coincide (None when all do)"""
+    out = parse_shape(so)
+    if out is None or len(out) != len(text):
+        return f"shape() failed or changed the glyph count on an attachment font: {so[:80]}"
+    B, gd = buffer_order(text, d)
+    n = len(B)
+    cl_of = (lambda k: n - 1 - k) if d == "b" else (lambda k: k)      # buffer index -> input cluster
+    pen = pen_by_cluster(out)
+    att, pairs = expected_attachments(sem, B)
+    if stats is not None:
+        stats["per_dir"][d] += 1
+        depth = 0
+        for i in range(n):
+            depth = depth + 1 if i in att and att[i][0] == i - 1 and i - 1 in att else 0
+            if depth >= 64: stats["long_mark_chains"] += 1; break
+        if len(pairs) >= 64: stats["long_cursive_runs"] += 1
+        stats["marks_checked"] += len(att); stats["pairs_checked"] += len(pairs)
+    for i, (t, ma, ba) in att.items():
+        pi, pt = pen[cl_of(i)], pen[cl_of(t)]
+        if (pi[0] + ma[0], pi[1] + ma[1]) != (pt[0] + ba[0], pt[1] + ba[1]):
+            return (f"attached anchors do not coincide: mark at buffer index {i} (glyph {B[i]}): origin+mark anchor = "
+                    f"{(pi[0] + ma[0], pi[1] + ma[1])} but target {t} (glyph {B[t]}) origin+anchor = "
+                    f"{(pt[0] + ba[0], pt[1] + ba[1])}, dir {d}")
+    for j, (i, en, ex) in pairs.items():
+        pi, pj = pen[cl_of(i)], pen[cl_of(j)]
+        if (pj[0] + en[0], pj[1] + en[1]) != (pi[0] + ex[0], pi[1] + ex[1]):
+            return (f"attached anchors do not coincide: cursive pair ({i},{j}) glyphs ({B[i]},{B[j]}): entry point "
+                    f"{(pj[0] + en[0], pj[1] + en[1])} != exit point {(pi[0] + ex[0], pi[1] + ex[1])}, dir {d} "
+                    f"({'horizontal' if gd in 'lr' else 'vertical'})")
+    return None
+
+
 def attach_search(ctx, shim, r, nfonts, ntexts):
     groups, meta = [], []
     for f in range(nfonts):
@@ -805,43 +842,12 @@ def attach_search(ctx, shim, r, nfonts, ntexts):
                           "font_line": g[0][:200]}); continue
         for (text, d), so, req in zip(ms, o[1:-1], g[1:-1]):
             stats["shapes"] += 1
-            out = parse_shape(so)
-            rp = {"stage": "search", "stream": "gpos-shape", "font_line": g[0], "request": req, "observed": so,
-                  "recipe": rec}
-            if out is None or len(out) != len(text):
-                ctx.violation(f"shape() failed or changed the glyph count on an attachment font: {so[:80]}", rp); continue
-            B, gd = buffer_order(text, d)
-            n = len(B)
-            cl_of = (lambda k: n - 1 - k) if d == "b" else (lambda k: k)      # buffer index -> input cluster
-            pen = pen_by_cluster(out)
-            att, pairs = expected_attachments(sem, B)
-            stats["per_dir"][d] += 1
-            depth = 0
-            for i in range(n):
-                depth = depth + 1 if i in att and att[i][0] == i - 1 and i - 1 in att else 0
-                if depth >= 64: stats["long_mark_chains"] += 1; break
-            if len(pairs) >= 64: stats["long_cursive_runs"] += 1
-            why = None
-            for i, (t, ma, ba) in att.items():
-                stats["marks_checked"] += 1
-                pi, pt = pen[cl_of(i)], pen[cl_of(t)]
-                if (pi[0] + ma[0], pi[1] + ma[1]) != (pt[0] + ba[0], pt[1] + ba[1]):
-                    why = (f"mark at buffer index {i} (glyph {B[i]}): origin+mark anchor = {(pi[0] + ma[0], pi[1] + ma[1])} "
-                           f"but target {t} (glyph {B[t]}) origin+anchor = {(pt[0] + ba[0], pt[1] + ba[1])}, dir {d}")
-                    break
-            if why is None:
-                horiz = gd in "lr"
-                for j, (i, en, ex) in pairs.items():
-                    stats["pairs_checked"] += 1
-                    pi, pj = pen[cl_of(i)], pen[cl_of(j)]
-                    if (pj[0] + en[0], pj[1] + en[1]) != (pi[0] + ex[0], pi[1] + ex[1]):
-                        why = (f"cursive pair ({i},{j}) glyphs ({B[i]},{B[j]}): entry point {(pj[0] + en[0], pj[1] + en[1])} "
-                               f"!= exit point {(pi[0] + ex[0], pi[1] + ex[1])}, dir {d} ({'horizontal' if horiz else 'vertical'})")
-                        break
+            why = check_attach(sem, text, d, so, stats)
             if why:
                 bad += 1
                 if bad <= 2:
-                    ctx.violation("attached anchors do not coincide: " + why, rp)
+                    ctx.violation(why, {"stage": "search", "stream": "gpos-shape", "font_line": g[0], "request": req,
+                                        "observed": so, "text": text, "dir": d, "sem": sem, "recipe": rec})
     ctx.note_search("gpos-shape", stats["shapes"], stats["marks_checked"] + stats["pairs_checked"], detail=stats,
                     rule="generated fonts (GDEF classes, mark-to-base, mark-to-mark, 1-2 cursive lookups with random "
                          "RightToLeft / IgnoreMarks flags, random anchors, optional vmtx/VORG) x random texts x 4 directions "
@@ -885,7 +891,7 @@ def value_font(r, with_gpos=True, with_kern=True):
             pairs = {(a, b): rkern(r) for a in gl for b in gl if r.chance(1, 3)}
             horiz = r.chance(5, 6)
             subs.append({"horizontal": horiz, "pairs": [(a, b, v) for (a, b), v in pairs.items()]})
-            sem["kern"].append({"horizontal": horiz, "pairs": pairs})
+            sem["kern"].append({"horizontal": horiz, "pairs": {(a << 16) | b: v for (a, b), v in pairs.items()}})
         rec["kern"] = subs
     return rec, sem
 
@@ -923,13 +929,33 @@ def expected_values(sem, text, d, kern_on):
                 continue
             i = 0
             while i + 1 < n:
-                kv = sub["pairs"].get((B[V[i]], B[V[i + 1]]), 0)
+                kv = sub["pairs"].get((B[V[i]] << 16) | B[V[i + 1]], 0)
                 if kv:
                     k1 = kv >> 1; k2 = kv - k1
                     D[V[i]][0] += k1; D[V[i + 1]][0] += k2; D[V[i + 1]][2] += k2
                 i += 1
     cl_of = (lambda k: n - 1 - k) if d == "b" else (lambda k: k)
     return {cl_of(k): tuple(D[k]) for k in range(n)}
+
+
+def check_value(sem, text, d, kf, sv, sp, stats=None):
+    """differential oracle on one pair of shape() replies (font, font without GPOS/kern); returns
+    ("order"|"delta"|"fail", message) or None"""
+    a, b = parse_shape(sv), parse_shape(sp)
+    if a is None or b is None or len(a) != len(text) or len(b) != len(text):
+        return ("fail", f"shape() failed on a value font: {sv[:80]}")
+    if [x[1] for x in a] != [x[1] for x in b]:
+        return ("order", f"glyph order differs from the same text on the font without kern/GPOS (dir {d}, kern feature "
+                         f"{kf}): clusters {[x[1] for x in a]} vs {[x[1] for x in b]}")
+    exp = expected_values(sem, text, d, kf != "0")
+    got = {x[1]: (x[2] - y[2], x[3] - y[3], x[4] - y[4], x[5] - y[5]) for x, y in zip(a, b)}
+    if stats is not None and any(any(v) for v in exp.values()):
+        stats["with_nonzero_delta"] += 1
+    if got != exp:
+        cl = next(c for c in exp if got.get(c) != exp[c])
+        return ("delta", f"adjustment of cluster {cl} is {got.get(cl)} but the font's records give {exp[cl]} "
+                         f"(dxa, dya, dxo, dyo; dir {d}, kern feature {kf})")
+    return None
 
 
 def value_search(ctx, shim, r, nfonts, ntexts, plans):
@@ -951,7 +977,6 @@ def value_search(ctx, shim, r, nfonts, ntexts, plans):
         groups.append(lines); meta.append((rec, sem, ms))
     outs = vlib.run_groups(shim, groups, timeout=900)
     stats = {"shapes": 0, "with_nonzero_delta": 0, "kern_off": 0, "order_swapped_D3": 0, "per_dir": {d: 0 for d in DIRS}}
-    d3_reported = True        # the order swap (D3) is counted here and reported once by d3_shape_witness
     nbad = 0
     for (rec, sem, ms), o, g in zip(meta, outs, groups):
         if o[0] != "ok" or o[1] != "ok":
@@ -959,30 +984,19 @@ def value_search(ctx, shim, r, nfonts, ntexts, plans):
             continue
         for t, (text, d, kf) in enumerate(ms):
             sv, sp, req = o[2 + 2 * t], o[3 + 2 * t], g[2 + 2 * t]
-            a, b = parse_shape(sv), parse_shape(sp)
             stats["shapes"] += 1; stats["per_dir"][d] += 1
-            rp = {"stage": "search", "stream": "value-shape", "font_line": g[0], "plain_font_line": g[1], "request": req,
-                  "observed": sv, "plain": sp, "recipe": rec}
-            if a is None or b is None or len(a) != len(text) or len(b) != len(text):
-                ctx.violation(f"shape() failed on a value font: {sv[:80]}", rp); continue
-            kern_on = kf != "0"
-            if not kern_on: stats["kern_off"] += 1
-            if [x[1] for x in a] != [x[1] for x in b]:
-                stats["order_swapped_D3"] += 1
-                if not d3_reported:
-                    d3_reported = True
-                    rp2 = dict(rp); rp2.update({"stream": "kern-bracket-shape", "theorem": "known_C02_kern_bracket"})
-                    ctx.violation(f"glyph order differs from the same text on the font without kern/GPOS "
-                                  f"(dir {d}, kern feature {kf}): {[x[1] for x in a]} vs {[x[1] for x in b]}", rp2)
+            if kf == "0": stats["kern_off"] += 1
+            res = check_value(sem, text, d, kf, sv, sp, stats)
+            if res is None:
                 continue
-            exp = expected_values(sem, text, d, kern_on)
-            got = {x[1]: (x[2] - y[2], x[3] - y[3], x[4] - y[4], x[5] - y[5]) for x, y in zip(a, b)}
-            if any(any(v) for v in exp.values()): stats["with_nonzero_delta"] += 1
-            if got != exp:
-                cl = next(c for c in exp if got.get(c) != exp[c])
-                nbad += 1
-                if nbad <= 2: ctx.violation(f"adjustment of cluster {cl} is {got.get(cl)} but the font's records give {exp[cl]} "
-                              f"(dxa, dya, dxo, dyo; dir {d}, kern feature {kf})", rp)
+            if res[0] == "order" and d == "r" and kf == "0":
+                stats["order_swapped_D3"] += 1       # defect D3: counted here, reported once by d3_shape_witness
+                continue
+            nbad += 1
+            if nbad <= 2:
+                ctx.violation(res[1], {"stage": "search", "stream": "value-shape", "font_line": g[0], "plain_font_line": g[1],
+                                       "request": req, "plain_request": g[3 + 2 * t], "observed": sv, "plain": sp,
+                                       "text": text, "dir": d, "kern_feature": kf, "sem": sem, "recipe": rec})
     ctx.note_search("value-shape", stats["shapes"], stats["with_nonzero_delta"], detail=stats,
                     rule="generated fonts with SinglePos/PairPos lookups and/or a kern table (1-3 format-0 subtables) x random "
                          "texts x 4 directions x kern feature on/off/default, shaped with the font and with the same font "
@@ -1028,6 +1042,58 @@ def btt_hook_witness(ctx, shim):
                            "request": ln, "observed": o})
 
 
+def i16_witness(ctx, shim):
+    """D13, second half, through shape(): `attach_chain` is an i16.  A mark 32 769+ glyphs after its base gets a
+    wrapped (positive) link: out of range -> the mark silently keeps the raw anchor difference (not on its base);
+    in range (buffer > 65 536 glyphs) -> `assert!(j < i)` panics."""
+    rec = {"num_glyphs": 4, "cmap": "pua", "advances": [0, 600, 0, 0], "gdef": {"classes": {1: 1, 2: 3}},
+           "gpos": {"features": [{"tag": "mark", "lookups": [0]}], "lookups": [{"type": 4, "flag": 0, "subtables": [{
+               "mark_coverage": [2], "base_coverage": [1], "class_count": 1, "marks": [(0, (10, 20))],
+               "bases": [[(100, 200)]]}]}]}}
+    font = f"font I {fontbuild.hexfont(rec)}"
+    reqs = [shape_line("I", "l", [1] + [2] * n) for n in (32768, 32769, 70000)]
+    o = vlib.run_groups(shim, [[font] + reqs], nproc=1, timeout=300)[0]
+    ctx.note_search("attach-chain-i16-witness", 3, 3, rule="one base followed by 32768 / 32769 / 70000 marks of a mark-to-base font")
+    ok_out = parse_shape(o[1])
+    if ok_out is None or any((x[4], x[5]) != (-510, 180) for x in ok_out[1:]):
+        ctx.violation("base + 32768 marks: some mark is not on its base", {"stage": "search", "stream": "attach-chain-i16",
+                      "font_line": font, "text": "glyph 1 followed by 32768 x glyph 2", "observed": o[1][:300]})
+    bad = []
+    out = parse_shape(o[2])
+    if out is None:
+        bad.append(f"base + 32769 marks: {o[2][:120]}")
+    else:
+        off = [k for k, x in enumerate(out) if k > 0 and (x[4], x[5]) != (-510, 180)]
+        if off:
+            bad.append(f"base + 32769 marks: mark at index {off[0]} has offset {out[off[0]][4:6]} instead of (-510, 180)")
+    if not o[3].startswith("ok"):
+        bad.append(f"base + 70000 marks: {o[3][:120]}")
+    if bad:
+        ctx.violation("attach_chain is an i16: " + "; ".join(bad),
+                      {"stage": "search", "stream": "attach-chain-i16", "theorem": "known_C01_attach_chain_wraps",
+                       "font_line": font, "recipe": rec, "text": "glyph 1 followed by n x glyph 2, n = 32769 and n = 70000",
+                       "direction": "l", "observed_32769_tail": o[2][-120:], "observed_70000": o[3][:200]})
+
+
+def depth_witness(ctx, shim):
+    """D13, first half, through shape(): the attachment recursion has no nesting limit.  A 4-glyph font with one
+    RightToLeft-flagged cursive lookup and 300 000 glyphs of text: the forward chain i -> i+1 -> ... makes
+    propagate_attachment_offsets nest 300 000 deep -> stack overflow, the process aborts.
+    (known_C01_propagate_unbounded is the model-level statement.)"""
+    rec = {"num_glyphs": 4, "cmap": "pua", "advances": [0, 600, 0, 0], "gdef": {"classes": {1: 1}},
+           "gpos": {"features": [{"tag": "mark", "lookups": [0]}], "lookups": [{"type": 3, "flag": RTL_FLAG, "subtables": [
+               {"coverage": [1], "entry_exit": [((0, 10), (500, 20))]}]}]}}
+    font = f"font D {fontbuild.hexfont(rec)}"
+    o = vlib.run_groups(shim, [[font, shape_line("D", "l", [1] * 300000)]], nproc=1, timeout=300)[0]
+    ctx.note_search("propagate-depth-witness", 1, 1, rule="300000 x the same glyph, font with one RightToLeft cursive lookup")
+    if not o[1].startswith("ok"):
+        ctx.violation(f"shape() of 300000 cursively joined glyphs does not return: {o[1][:100]} (stack overflow in "
+                      "propagate_attachment_offsets: no nesting limit)",
+                      {"stage": "search", "stream": "propagate-depth", "theorem": "known_C01_propagate_unbounded",
+                       "font_line": font, "recipe": rec, "text": "300000 x glyph 1 (U+E000)", "direction": "l",
+                       "observed": o[1][:200]})
+
+
 def report_disagreements(ctx):
     """a correspondence disagreement comes with a concrete failing request: report it as such, at once"""
     for b in ctx.broken:
@@ -1071,32 +1137,88 @@ def run(ctx):
     ctx.cov["crate_constants"] = c
     plans = plan_table(shim)
     ctx.cov["kern_plan"] = {f"{d}/{f}": v for (d, f), v in plans.items()}
-    ctx.correspond("gpos-propagate", lines=prop_lines(ctx.rng("prop"), ctx.budget(6000, 150000)),
+    ctx.correspond("gpos-propagate", lines=prop_lines(ctx.rng("prop"), ctx.budget(6000, 600000)),
                    classify=classify_prop, canon=canon)
-    ctx.correspond("gpos-apply", lines=sub_lines(ctx.rng("sub"), ctx.budget(6000, 150000)),
+    ctx.correspond("gpos-apply", lines=sub_lines(ctx.rng("sub"), ctx.budget(6000, 600000)),
                    classify=classify_sub, canon=canon)
-    ctx.correspond("kern-machine", lines=mk_lines(ctx.rng("mk"), ctx.budget(4000, 100000)),
+    ctx.correspond("kern-machine", lines=mk_lines(ctx.rng("mk"), ctx.budget(4000, 400000)),
                    classify=classify_mk, canon=canon)
-    ctx.correspond("kern-fmt0", lines=f0_lines(ctx.rng("f0"), ctx.budget(2000, 50000)), canon=canon)
-    ctx.correspond("kern-driver", lines=drv_lines(ctx.rng("drv"), ctx.budget(3000, 80000), plans),
+    ctx.correspond("kern-fmt0", lines=f0_lines(ctx.rng("f0"), ctx.budget(2000, 100000)), canon=canon)
+    ctx.correspond("kern-driver", lines=drv_lines(ctx.rng("drv"), ctx.budget(3000, 300000), plans),
                    classify=classify_drv, canon=canon)
     report_disagreements(ctx)
-    mark_chain_search(ctx, shim, ctx.rng("markchain"), ctx.budget(3000, 60000))
-    attach_search(ctx, shim, ctx.rng("attach"), ctx.budget(150, 3000), ctx.budget(8, 12))
-    value_search(ctx, shim, ctx.rng("value"), ctx.budget(150, 3000), ctx.budget(8, 12), plans)
+    mark_chain_search(ctx, shim, ctx.rng("markchain"), ctx.budget(3000, 200000))
+    attach_search(ctx, shim, ctx.rng("attach"), ctx.budget(150, 10000), ctx.budget(8, 12))
+    value_search(ctx, shim, ctx.rng("value"), ctx.budget(150, 10000), ctx.budget(8, 12), plans)
     # genuine findings last, so that they never use up the violation budget of the streams above
-    d3_hook_witness(ctx, shim, plans)
     d3_shape_witness(ctx, shim)
+    d3_hook_witness(ctx, shim, plans)
     btt_hook_witness(ctx, shim)
+    i16_witness(ctx, shim)
+    depth_witness(ctx, shim)
     report_broken_proof(ctx)
+
+
+def intkeys(x):
+    """undo JSON's stringification of integer dict keys"""
+    if isinstance(x, dict):
+        return {(int(k) if isinstance(k, str) and k.lstrip("-").isdigit() else k): intkeys(v) for k, v in x.items()}
+    if isinstance(x, list):
+        return [intkeys(v) for v in x]
+    return x
 
 
 def replay(ctx, rp):
     shim = vlib.build_harness()
+    stream = rp.get("stream")
+    if stream == "gpos-shape" and "sem" in rp:
+        o = vlib.run_groups(shim, [[rp["font_line"], rp["request"]]], nproc=1)[0]
+        why = check_attach(intkeys(rp["sem"]), rp["text"], rp["dir"], o[1])
+        print("reply:", o[1]); print("oracle:", why or "all anchors coincide")
+        return 1 if why else 0
+    if stream == "value-shape" and "sem" in rp:
+        o = vlib.run_groups(shim, [[rp["font_line"], rp["plain_font_line"], rp["request"], rp["plain_request"]]], nproc=1)[0]
+        res = check_value(intkeys(rp["sem"]), rp["text"], rp["dir"], rp["kern_feature"], o[2], o[3])
+        print("font :", o[2]); print("plain:", o[3]); print("oracle:", res[1] if res else "deltas equal the records")
+        return 1 if res else 0
+    if stream == "kern-bracket-shape":
+        o = vlib.run_groups(shim, [[rp["font_line"], rp["plain_font_line"], rp["request"],
+                                    rp["request"].replace("shape K ", "shape Q ")]], nproc=1)[0]
+        a, b = parse_shape(o[2]), parse_shape(o[3])
+        print("kern font :", o[2]); print("plain font:", o[3])
+        return 0 if a and b and [x[:2] for x in a] == [x[:2] for x in b] else 1
+    if stream == "kern-bracket-witness":
+        o = vlib.run_lines(shim, [rp["request"]], nproc=1)[0]
+        print("impl:", o)
+        return 0 if o.startswith("ok") and o.split()[2] == "1,2" else 1
+    if stream == "cursive-btt":
+        o = vlib.run_lines(shim, [rp["request"]], nproc=1)[0]
+        t = o.split()
+        print("impl:", o)
+        if t[0] != "ok" or t[1] != "1":
+            return 1
+        org = origins([parse_pos(x) for x in t[4:]], True)
+        return 0 if org[1][1] + 30 == org[0][1] + 40 else 1
+    if stream == "attach-chain-i16":
+        before = len(ctx.violations)
+        i16_witness(ctx, shim)
+        for v in ctx.violations[before:]:
+            print(v[0])
+        return 1 if len(ctx.violations) > before else 0
+    if stream == "propagate-depth":
+        before = len(ctx.violations)
+        depth_witness(ctx, shim)
+        for v in ctx.violations[before:]:
+            print(v[0])
+        return 1 if len(ctx.violations) > before else 0
+    if stream == "mark-coincide":
+        o = vlib.run_lines(shim, [rp["request"]], nproc=1)[0]
+        print("impl:", o, "(was:", rp.get("observed"), ")")
+        return 1 if o == rp.get("observed") else 0
     if "request" in rp:
         model = vlib.build_model()
         a = canon(vlib.run_lines(shim, [rp["request"]], nproc=1)[0])
         b = canon(vlib.run_lines(model, [rp["request"]], nproc=1)[0])
         print("impl :", a); print("model:", b)
-        return 0 if a == b and "expected" not in rp else 1
+        return 0 if a == b else 1
     print(rp); return 1
